@@ -4,7 +4,7 @@ from datetime import date
 
 from .. import core
 from ..core import Shard, run, align_lines, res_replay
-from ..oracle import cal, leap
+from ..oracle import cal, leap, tzif
 
 EP_MAX = (cal.ORD_MAX - 606 - cal.ORD_UNIX) * 86400      # stay clear of finding F1
 
@@ -136,10 +136,69 @@ def radd_task(task):
     return sh
 
 
+ZONES = ["Europe/Berlin", "America/New_York", "Asia/Kolkata", "Australia/Sydney", "Pacific/Chatham"]
+_ZC = {}
+
+
+def _zone(z):
+    if z not in _ZC:
+        _ZC[z] = tzif.load("/usr/share/zoneinfo/" + z)
+    return _ZC[z]
+
+
+def zradd_task(task):
+    """real seconds are counted on the UTC line whatever zone the operand was read in, and whatever other durations
+    stand next to them: dadd --from-zone Z -- [Kd] Nrs [0d] reads local stamps, prints UTC"""
+    bindir, zone, pre, n, post, ts = task
+    sh = Shard()
+    L = leap.Leaps()
+    Z = _zone(zone)
+    keep, lines = [], []
+    for t in ts:
+        if t < 0 or t + (pre or 0) * 86400 < 0 or t + (pre or 0) * 86400 + n < 0:
+            continue
+        loc = t + Z.offset(t)
+        if Z.utc_candidates(loc) != [t]:
+            continue
+        keep.append(t)
+        lines.append(civ(loc))
+    if not keep:
+        return sh
+    durs = (["%+dd" % pre] if pre is not None else []) + ["%+drs" % n] + ([post] if post else [])
+    argv = [str(bindir / "dadd"), "--from-zone", zone, "--"] + durs
+    r = run(argv, stdin=("\n".join(lines) + "\n").encode(), cpu=30, wall=120)
+    sh.procs += 1
+    sh.check_san(r, "san", "leap:zradd")
+    outs, _ = align_lines(lines, r)
+    # the argument path reads the operand a second time once the durations are known: a few stamps go that way too
+    outs = outs + [None] * (len(keep) - len(outs))
+    narg = min(len(keep), 4)
+    for t, ln in list(zip(keep, lines))[:narg]:
+        ra = run(argv[:3] + [ln] + durs, cpu=10, wall=60)
+        sh.procs += 1
+        sh.check_san(ra, "san", "leap:zradd")
+        outs.append(ra.out.decode("latin-1").rstrip("\n"))
+    via = ["stdin"] * len(keep) + ["arg"] * narg
+    for t, ln, got, how in zip(keep + keep[:narg], lines + lines[:narg], outs, via):
+        u, lab = L.add_si(t + (pre or 0) * 86400, n)
+        want = civ(u, lab)
+        shape = ("Kd+" if len(durs) > 1 and durs[0].endswith("d") else "") + "Nrs" + ("+0d" if post else "")
+        c = ("zradd", how, shape, "+" if n > 0 else "-", "lands-on-leap" if lab else "regular", "east" if Z.offset(t) > 0 else "west")
+        if got == want:
+            sh.ok("leap-add", c)
+        else:
+            sh.bad("leap-add", "leap:zradd:%s:%s:%s:%s" % (how, shape, c[3], c[4]),
+                   "dadd --from-zone %s %s %s -> %r; that is %s UTC, and %s later is %s" %
+                   (zone, ln, " ".join(durs), got, civ(t), " ".join(durs), want),
+                   dict(argv=argv if how == "stdin" else argv[:3] + [ln] + durs, input=ln if how == "stdin" else None,
+                        expected=want, observed=got), cls=c)
+    return sh
+
+
 def _dispatch(t):
     if t[0] == "inv":
         return inv_task(t[1])
-    return {"offs": offs_task, "rdiff": rdiff_task, "radd": radd_task}[t[0]](t[1])
+    return {"offs": offs_task, "rdiff": rdiff_task, "radd": radd_task, "zradd": zradd_task}[t[0]](t[1])
 
 
 def inv_task(task):
@@ -203,9 +262,21 @@ def main(tier, seed):
     # +Nrs
     # around every inserted second, and around the table's first row (1972-01-01), which is NOT an insertion
     add_ts = sorted(set(t + d for t in L.steps for d in range(-5, 6)) | set(L.ts[0] + d for d in (-20, -10, -1, 0, 1, 10)))
-    for n in [1, 2, 3, 4, 5, 6, 86400, 86401, 31536000, 63072000] + [rng.randrange(1, 10 ** 8) for _ in range(6 if quick else 80)]:
+    # distances from one inserted second to another (+-3 s): the walk has to correct for every insertion in between and
+    # still land on, just before or just after one
+    spans = [L.steps[j] - L.steps[i] + d for i in range(len(L.steps)) for j in range(i + 1, len(L.steps)) for d in range(-3, 4)]
+    spans = rng.sample(spans, 12 if quick else 400) + [63072001, 94608001, 142128001, L.steps[-1] - L.steps[0] + 1]
+    for n in [1, 2, 3, 4, 5, 6, 86400, 86401, 31536000, 63072000] + spans + [rng.randrange(1, 10 ** 8) for _ in range(6 if quick else 80)]:
         for s in (1, -1):
             tasks.append(("radd", (bindir, s * n, add_ts + [rng.randrange(L.ts[0] + 100, L.ts[-1] + 10 ** 8) for _ in range(40)])))
+    # the same additions with the operand given in a zone's wall clock and further durations next to the real seconds
+    for zone in ZONES:
+        for n in [1, 2, 5, 30, 86401] + [rng.randrange(1, 10 ** 6) for _ in range(2 if quick else 20)]:
+            for s in (1, -1):
+                for pre, post in ((None, None), (None, "0d"), (None, "+0mo"), (0, None), (1, None), (-1, None), (7, "0d")):
+                    tasks.append(("zradd", (bindir, zone, pre, s * n, post,
+                                            [t + d for t in rng.sample(L.steps, 8 if quick else len(L.steps)) for d in (-5, -2, -1, 0, 1, 3)] +
+                                            [rng.randrange(L.ts[0] + 100, L.ts[-1] + 10 ** 8) for _ in range(10)])))
     for sh in core.pmap(_dispatch, tasks):
         ctx.merge(sh)
     ctx.rule = ("events: (0) dconv --from-zone TAI|GPS for stamps -1..+38 s around every table entry (the inverse mapping); (1) dconv --zone TAI|GPS at every table entry -2..+2 s, interval midpoints, year starts to 4093, "
@@ -213,9 +284,10 @@ def main(tier, seed):
                 "GPS = TAI-19 from 1980-01-06); (2) ddiff A B -f '%%rS|%%S' on ordered pairs of boundary instants: real "
                 "seconds = UTC difference + leap seconds in (A,B], antisymmetric; (3) dadd DT +-Nrs for instants -5..+5 s "
                 "around every inserted second x N in {1..6, 86400, 86401, 1 y, 2 y, random}: lands N SI seconds later, "
-                "23:59:60 exactly on inserted seconds. Oracle = lib/leap-seconds.list (%d entries, %d insertions). "
+                "23:59:60 exactly on inserted seconds; N also the distance between any two insertions +-3 s; (4) the same with the operand in a zone's wall clock "
+                "(dadd --from-zone Z -- [Kd] Nrs [0d], %d zones): real seconds count on the UTC line. Oracle = lib/leap-seconds.list (%d entries, %d insertions). "
                 "distinct_nontrivial = distinct (monitor, sign/zone, era or leaps crossed, side of the boundary)" %
-                (len(L.ts), len(L.steps)))
+                (len(ZONES), len(L.ts), len(L.steps)))
     ctx.assumptions = ["TAI-UTC before 1972-01-01 is taken as the table's first value (10 s)",
                        "the first table row (1972-01-01, 10 s) is not an inserted second", "operands are regular UTC seconds (23:59:60 only as a result)"]
     ctx.min_evals = 5000
